@@ -52,8 +52,8 @@ func (t *term) String() string {
 	return t.str
 }
 
-func K(c int64) *term  { return &term{op: "const", c: c} }
-func S(n string) *term { return &term{op: "sym", name: n} }
+func K(c int64) *term               { return &term{op: "const", c: c} }
+func S(n string) *term              { return &term{op: "sym", name: n} }
 func O(op string, a ...*term) *term { return norm(&term{op: op, args: a}) }
 func ON(op, name string, a ...*term) *term {
 	return norm(&term{op: op, name: name, args: a})
@@ -291,7 +291,8 @@ type evaluator struct {
 	env   map[ssa.Value]*term
 	depth int
 	// phiSym controls how phis are named: by comment (source variable) only
-	cache map[ssa.Value]*term
+	cache    map[ssa.Value]*term
+	bitsBusy map[ssa.Value]bool
 }
 
 func newEval(p *Program) *evaluator {
@@ -649,6 +650,14 @@ func (e *evaluator) bits(v ssa.Value) int {
 	if w == 0 {
 		return 64
 	}
+	if e.bitsBusy == nil {
+		e.bitsBusy = map[ssa.Value]bool{}
+	}
+	if e.bitsBusy[v] || len(e.bitsBusy) > 64 {
+		return w // cycle (loop-carried value) or too deep: only the type bounds it
+	}
+	e.bitsBusy[v] = true
+	defer delete(e.bitsBusy, v)
 	switch x := v.(type) {
 	case *ssa.Const:
 		if c, ok := constInt(x); ok && c >= 0 {
@@ -695,6 +704,34 @@ func (e *evaluator) bits(v ssa.Value) int {
 			if b := maxInt(e.bits(x.X), e.bits(x.Y)) + 1; b < w {
 				return b
 			}
+		case token.MUL:
+			bx, by := e.bits(x.X), e.bits(x.Y)
+			// x*c < 2^bits(x) * 2^ceil(log2 c)
+			if c, ok := constInt(x.Y); ok && c > 0 {
+				by = bitLen(c - 1)
+			}
+			if c, ok := constInt(x.X); ok && c > 0 {
+				bx = bitLen(c - 1)
+			}
+			if b := bx + by; b < w {
+				return b
+			}
+		}
+	case *ssa.Phi:
+		b := 0
+		for _, ed := range x.Edges {
+			if ed == v {
+				continue
+			}
+			if _, isPhi := ed.(*ssa.Phi); isPhi {
+				return w
+			}
+			if y := e.bits(ed); y > b {
+				b = y
+			}
+		}
+		if b < w {
+			return b
 		}
 	}
 	return w
